@@ -20,4 +20,4 @@ Definition tree_reason_code (r : reason) : Z :=
 
 Definition src_tree : srcp :=
   {| loop_bound := 10; min_budget := 3; reset_guarded := true; direct_clears_again := true; direct_cancels_retry := true;
-     put_resets_cursor := true; reason_code := tree_reason_code |}.
+     put_resets_cursor := true; retry_checks_direct := true; reason_code := tree_reason_code |}.
